@@ -1205,9 +1205,9 @@ func (w *vfWorld) compareWithRecalc() {
 		return
 	}
 	before := vfSnapshot(w.t, w.db)
-	if err := w.db.transaction(func(tx *txn) error { return recalcContractMetrics(tx, zap.NewNop()) }); err != nil {
-		w.t.Fatal(err)
-	}
+	w.do("recalc", "Recalc", true, func(db *Store) error {
+		return db.transaction(func(tx *txn) error { return recalcContractMetrics(tx, zap.NewNop()) })
+	})
 	after := vfSnapshot(w.t, w.db)
 	names := []string{"", "", "", "", "", "lockedCollateral", "riskedCollateral", "potentialRPC", "potentialStorage", "potentialIngress", "potentialEgress",
 		"potentialRegistryRead", "potentialRegistryWrite", "earnedRPC", "earnedStorage", "earnedIngress", "earnedEgress", "earnedRegistryRead", "earnedRegistryWrite"}
